@@ -148,6 +148,22 @@ Proof.
 Qed.
 End Cover.
 
+(* create_sparse returns normally and its triples act as the sum above *)
+Theorem sparse_sum_full (qnu qs : list nat) :
+  NoDup qnu -> NoDup qs -> (forall p, In p qnu -> ~ In p qs) ->
+  (forall p, (p < length qnu + length qs)%nat -> In p qnu \/ In p qs) ->
+  (forall q, In q qnu -> (q < length qnu + length qs)%nat) -> (forall q, In q qs -> (q < length qnu + length qs)%nat) ->
+  (0 < length qnu)%nat -> (0 < length qs)%nat ->
+  create_sparse (map Z.of_nat qs) (map Z.of_nat qnu) (map Z.of_nat qs) (length qnu + length qs)%nat = Ok (sparse_triples qnu qs) /\
+  forall gate psi b, length b = (length qnu + length qs)%nat ->
+    coo (sparse_triples qnu qs) gate psi b =
+    bsum (length qs) (fun jc => gate (fst (ent qs b (scat qs jc b))) (snd (ent qs b (scat qs jc b))) * psi (scat qs jc b)).
+Proof.
+  intros NDu NDq Disj Cov Bu Bq Hk Hm. split.
+  - exact (create_sparse_spec qnu qs Hk Hm Bu Bq).
+  - exact (sparse_sum qnu qs NDu NDq Disj Cov Bu Bq).
+Qed.
+
 (* create_sparse with the qubit count given separately *)
 Lemma create_sparse_ok nq (qnu qs : list nat) : nq = (length qnu + length qs)%nat -> 0 < length qnu -> 0 < length qs ->
   (forall q, In q qnu -> q < nq) -> (forall q, In q qs -> q < nq) ->
